@@ -173,6 +173,74 @@ def gen_merge_jobs(ctx, n):
     return jobs
 
 
+def gen_edge_jobs(ctx, n):
+    """remove_one_edge_from_polyhedron on closed cells (merged clusters)"""
+    rng = ctx.rng
+    jobs = []
+    for i in range(n):
+        cells, nn = gen_cluster(rng, rng.randint(1, 4))
+        # merged cell = all faces minus cancelling pairs (computed here only to
+        # build an input; the result is checked by Coq's closed_b before use)
+        faces = [tuple(f) for c in cells for f in c]
+
+        def key(f):
+            k = f.index(min(f))
+            return tuple(f[k:] + f[:k])
+        keys = [key(f) for f in faces]
+        cell = [list(f) for f in faces if key(tuple(reversed(f))) not in keys]
+        cell = relabel(rng, [cell], nn, rng.choice(['dense', 'sparse']))[0]
+        f = rng.choice(cell)
+        j = rng.randrange(len(f))
+        a, b = f[j - 1], f[j]
+        if rng.random() < 0.5:
+            a, b = b, a
+        if rng.random() < 0.1:
+            a = rng.choice(rng.choice(cell))      # usually not an edge
+        jobs.append({'id': i, 'op': 'edge', 'poly': cell, 'a': a, 'b': b})
+    return jobs
+
+
+def eval_edge(ctx, jobs, res):
+    lines = [HEADER]
+    cases = []
+    n_ok = 0
+    for job, r in zip(jobs, res):
+        ctx.case(['edge', job['poly'], job['a'], job['b']], nontrivial=bool(r.get('ok')))
+        if 'error' in r:
+            ctx.violation('impl-violation', {'jobs': {'edge': [job]}}, 'remove_one_edge returns', r['error'],
+                          'verified-oracle test of remove_one_edge_from_polyhedron',
+                          signature={'check': 'edge', 'symptom': 'raises'})
+            continue
+        n_ok += bool(r['ok'])
+        a, b = cz(job['a']), cz(job['b'])
+        # input closed (else the case is void -> reported as harness error), and if the
+        # implementation accepted: output closed, same edges except (a,b),(b,a)
+        cases.append((job['id'],
+                      f'let p := {cpoly(job["poly"])} in let p\' := {cpoly(r["poly"])} in '
+                      f'closed_b p && (negb {"true" if r["ok"] else "false"} || '
+                      f'(closed_b p\' && forallb (fun e => emem e (pedges p)) (pedges p\') && '
+                      f'forallb (fun e => emem e (pedges p\') || emem e [({a}, {b}); ({b}, {a})]) (pedges p)))'))
+    lines.append('Goal True. idtac "@@ edge". Abort.')
+    lines.append('Eval vm_compute in map fst (filter (fun c => negb (snd c)) ' +
+                 lib.coq_list([f'({cz(i)}, {e})' for i, e in cases]) + ').')
+    rc, out, err = ctx.coq_eval('CasesEdge', '\n'.join(lines) + '\n')
+    bad = None if rc != 0 else failing(lib.parse_marked(out).get('edge', ''))
+    if bad is None:
+        ctx.violation('correspondence', {}, 'CasesEdge.v evaluates', (err or out)[-600:],
+                      'verified-oracle test of remove_one_edge_from_polyhedron', found_input=False,
+                      signature={'check': 'edge', 'symptom': 'coq-eval-failed'})
+        return
+    ctx.notes['remove_one_edge_oracle'] = {'cases': len(cases), 'accepted_by_impl': n_ok, 'failed': len(bad)}
+    for job, r in zip(jobs, res):
+        if job['id'] in bad:
+            ctx.violation('impl-violation', {'jobs': {'edge': [job]}},
+                          'a closed cell whose directed edges are those of the input minus (A,B),(B,A)',
+                          {'ok': r.get('ok'), 'poly': r.get('poly')},
+                          'verified-oracle test (closed_b evaluated in Coq) of remove_one_edge_from_polyhedron',
+                          signature={'check': 'edge', 'symptom': 'not closed or edges changed'},
+                          what='remove_one_edge_from_polyhedron returns an invalid cell')
+
+
 def gen_reindex_jobs(ctx, n):
     rng = ctx.rng
     jobs = []
@@ -585,6 +653,9 @@ def eval_transfers(ctx, rjobs, rres):
             func = t['dir'] + '_' + t['where'] + '_data'
             meta = {'type': 'transfer', 'run': rid, 'tid': t['tid'], 'func': func, 'kind': t['kind'],
                     'shape': t['shape'], 'knn': t['knn'], 'xmode': t['xmode']}
+            # (3,3) data: x / wt with wt (1,3) broadcasts without error, column-wise
+            sq = {'n_src': 3} if (t['shape'] == 'N3' and t.get('n_src') == 3) else {}
+            meta['sq'] = sq
             ctx.count(f'transfer:{t["kind"]}:{t["shape"]}')
             if 'error' in t:
                 sym.append((meta, 'raises ' + t['error'], t.get('error_msg', '')))
@@ -686,16 +757,17 @@ def eval_transfers(ctx, rjobs, rres):
                 ctx.corr['disagreements'] += 1
                 ctx.violation('correspondence', case_of(meta), 'Model.%s_tr on the real matrix' % meta['kind'],
                               'differs by more than 2^-30', 'correspondence of the transfer formulas',
-                              signature={'check': 'transfer-corr', 'kind': meta['kind'], 'func': meta['func'],
-                                         'shape': meta['shape']},
+                              signature=dict({'check': 'transfer-corr', 'kind': meta['kind'],
+                                              'func': meta['func'], 'shape': meta['shape']}, **meta['sq']),
                               what='transferred data differ from the model formula')
             else:
                 ctx.violation('impl-violation', case_of(meta),
                               'constant preserved' if ty == 'const' else 'grand total conserved',
                               'false', 'C20_mean_preserves_const' if ty == 'const' else
                               'C20_sum_conserves_total',
-                              signature={'check': 'transfer', 'kind': meta['kind'], 'func': meta['func'],
-                                         'shape': meta['shape'], 'symptom': ty + ' not kept'},
+                              signature=dict({'check': 'transfer', 'kind': meta['kind'], 'func': meta['func'],
+                                              'shape': meta['shape'], 'symptom': ty + ' not kept'},
+                                             **meta['sq']),
                               what='transfer does not keep the ' + ty)
     for meta, symptom, msg in sym:
         ctx.case(['transfer', meta], nontrivial=True)
@@ -722,6 +794,8 @@ def evaluate(ctx, jobs, timeout):
         eval_merge(ctx, jobs['merge'], res['merge'])
     if jobs.get('reindex'):
         eval_reindex(ctx, jobs['reindex'], res['reindex'])
+    if jobs.get('edge'):
+        eval_edge(ctx, jobs['edge'], res['edge'])
     if jobs.get('runs'):
         eval_runs(ctx, jobs['runs'], res['runs'])
         eval_transfers(ctx, jobs['runs'], res['runs'])
@@ -760,6 +834,7 @@ def main(ctx):
     thorough = ctx.tier == 'thorough'
     jobs = {'merge': gen_merge_jobs(ctx, 400 if thorough else 120),
             'reindex': gen_reindex_jobs(ctx, 300 if thorough else 80),
+            'edge': gen_edge_jobs(ctx, 400 if thorough else 100),
             'runs': gen_run_jobs(ctx, 60 if thorough else 6)}
     # corpus first
     corpus = sorted((lib.VERIF / 'corpus' / PID).glob('*.json')) if (lib.VERIF / 'corpus' / PID).exists() else []
@@ -796,7 +871,7 @@ def replay(path):
     ctx = lib.Ctx(PID, 'quick')
     lib.coq_make(['C20/Harness.vo'])
     jobs = {'merge': jobs.get('merge', []), 'runs': jobs.get('runs', []),
-            'reindex': jobs.get('reindex', [])}
+            'reindex': jobs.get('reindex', []), 'edge': jobs.get('edge', [])}
     for k in jobs:
         for i, j in enumerate(jobs[k]):
             j['id'] = i
